@@ -5,7 +5,7 @@ set -u
 P=$(readlink -f "$1"); ID=$2; TIER=${3:-quick}
 D=$(mktemp -d /tmp/mutscr_XXXXXX); mkdir -p $D/r $D/ev
 rsync -a --exclude .git --exclude build /repo/ $D/r/ && cd $D/r && patch -s -p1 < "$P" || { echo "patch does not apply"; rm -rf $D; exit 9; }
-cd /verif && VERIF_REPO=$D/r VERIF_EVIDENCE_DIR=$D/ev ./check $ID --tier $TIER > $D/log 2>&1; rc=$?
+cd /verif && VERIF_REPO=$D/r VERIF_EVIDENCE_DIR=$D/ev timeout -k 10 ${MUT_TIMEOUT:-1200} ./check $ID --tier $TIER > $D/log 2>&1; rc=$?
 echo "== $P on $ID ($TIER, scratch copy): exit $rc"; grep -E "^VIOLATION|^KNOWN|^INCONCLUSIVE|^\[C" $D/log | head -6
 cp $D/log /tmp/mutscratch_$ID.log; rm -rf $D
 exit $rc
